@@ -186,6 +186,20 @@ CHECKS["C11"] = dict(
     note="Trusted: ref/gs.py (Fractions), ref/hmodel.py; systems are I^T(K+M)I from Kronecker tensor-product matrices; energy "
          "tolerance 1e-9 ||A||.")
 
+CHECKS["C08"] = dict(
+    category="model_checking", design_ref="DESIGN.md §2.4, §3 C08",
+    technique="complete enumeration of the configuration lattice (forms x symmetric x format x layout) and of entry/row/block "
+              "subsets; stateless exploration of ALL orders of the assembly chunk tasks under a controlled executor for every "
+              "thread count 2..16 with poisoned foreign output slices (dynamic independence check = partial-order reduction); "
+              "explicit-state enumeration of update/assemble event sequences to depth 3",
+    text="15-18 compiled forms (scalar 1-3D, non-symmetric, vector forms with (2,2),(2,1),(1,2),(2,3) blocks, functionals): every "
+         "configuration vs the reference configuration; every single entry/row; ~3300 chunk-task schedules executed on the real "
+         "multi_entries/multi_blocks with bitwise comparison against one thread and footprint checks; real pool and OpenMP runs in "
+         "fresh processes for n in 1..16; ~600 update/assemble sequences vs fresh construction.",
+    note="Instruction-level interleavings inside nogil C code are not driven by the scheduler; they are covered by the dynamically "
+         "checked independence of tasks (disjoint footprints, order-independent bitwise results) plus free-running real-thread "
+         "runs (supplementary, not deciding). Reference configuration is tied to the semantics by C01.")
+
 NOT_YET = {}
 
 
